@@ -654,13 +654,26 @@ pub fn c04(thorough: bool, replay: Option<String>) -> i32 {
         quote(T::list(&[T::int(41), T::int(42)])),
         T::list(&[T::a(&[6]), T::a(&[1])]),
     ];
+    // ARGS whose components are QUOTED DATA shaped like code: a change of variables may select such a component, and it
+    // must stay data
+    let mut arg_menu = arg_menu;
+    let code_like: Vec<T> = vec![
+        T::list(&[T::list(&[T::a(&[6]), T::a(&[1])])]),                                                   // ((r 1))
+        T::list(&[T::list(&[T::a(&[2]), T::nil(), T::a(&[1])]), T::p(T::a(&[1]), T::nil())]),          // ((a 0 1) (q . 0))
+        T::list(&[T::list(&[T::a(&[5]), T::a(&[1])]), T::int(7)]),                                       // ((f 1) 7)
+        T::list(&[T::p(T::a(&[1]), T::nil()), T::list(&[T::a(&[4]), T::a(&[1]), T::a(&[1])])]),          // ((q) (c 1 1))
+    ];
+    for d in &code_like {
+        arg_menu.push(T::list(&[T::a(&[4]), quote(d.clone()), T::a(&[1])]));
+        arg_menu.push(T::list(&[T::a(&[4]), T::a(&[1]), quote(d.clone())]));
+    }
     let nm = arg_menu.len() as u64;
     let n = sq.total * nm;
     let (st, capped) = par_range(n, 256, cap, || Ctx::new(&envs_i), |ctx, st, i| {
         let r = T::list(&[T::a(&[2]), quote(sq.get(i / nm)), arg_menu[(i % nm) as usize].clone()]);
         check_c04(st, ctx, &r, &[], OptEntry::OptimizeSexp, "apply-quoted");
     });
-    rep.add_sub("apply-quoted", "(a (q . S) ARGS) for every tree S with 1..3 (thorough 4) leaves over the core alphabet x 9 ARGS forms (paths, conses of paths/constants, quoted list, (r 1))", n, true, capped, st);
+    rep.add_sub("apply-quoted", "(a (q . S) ARGS) for every tree S with 1..3 (thorough 4) leaves over the core alphabet x 17 ARGS forms (paths, conses of paths/constants, quoted list, (r 1), and conses with a quoted component that is data shaped like code: ((r 1)), ((a 0 1) (q . 0)), ((f 1) 7), ((q) (c 1 1)))", n, true, capped, st);
 
     // (i-ops) every named operator of the latest table, with constant and with path arguments, in evaluated positions
     {
